@@ -2,14 +2,15 @@ import os
 import re
 
 from . import streams_codec, streams_ugrid
+from . import streams_partmeshb
 from .common import LEAN
 
 ID = 'C20'
-PROPS_MODULE = ['Refine.Props.C20', 'Refine.Props.C20Ugrid']
+PROPS_MODULE = ['Refine.Props.C20', 'Refine.Props.C20Ugrid', 'Refine.Props.C20PartMeshb']
 STREAMS = [streams_codec.C20_MESHB, streams_codec.C20_SOLB, streams_codec.C20_ROBUST,
            streams_codec.C20_HANG, streams_codec.C20_INDEX, streams_codec.C20_COUNT, streams_codec.C20_NAMES,
            streams_ugrid.C20_MUT, streams_ugrid.C20_ROBUST, streams_ugrid.C20_INDEX, streams_ugrid.C20_COUNT,
-           streams_ugrid.C20_SWEEP]
+           streams_ugrid.C20_SWEEP, streams_partmeshb.C20, streams_partmeshb.READ]
 EXPLANATION = (
     'Obligations on the reader models (Refine/Props/C20.lean): totality; accepted_counts_fit; header_progress + '
     'header_scan_returns (every hop of the keyword scan moves strictly forward, so the scan returns on every byte '
@@ -53,7 +54,19 @@ EXPLANATION = (
     'file (oracle: independent parse of the text; no model of the ASCII reader); c20_ugrid_count — regression guard of the '
     'repaired finding ugrid-part-count-overflow (exact status failure; oracle: a file whose counts need more bytes than it '
     'has is never accepted).  Stream c20_ugrid_sweep replays the Lean witness and currently FAILS in the real writer: '
-    'KNOWN-FINDING site ugrid-export-faceid-range-sweep (findings/<site>/ has the file, the ops and the proposed repair).')
+    'KNOWN-FINDING site ugrid-export-faceid-range-sweep (findings/<site>/ has the file, the ops and the proposed repair).  '
+    'PARALLEL READER (work package partmeshb; Refine/Model/PartMeshb.lean, Props/C20PartMeshb.lean): '
+    'ref_part_by_extension -> ref_part_meshb is modelled with its own validation (rank 0 reads; one checked fread per '
+    'chunk of MAX(1000000, ncell/np) records, then the range check `c2n < 1 || nnode < c2n` on the 1-based values, then '
+    'the decrement).  Proved for every np >= 1, chunk constant and byte string: partCell_accepted_in_range (accepted => '
+    'every vertex of every cell handed to the routing is in [0, nnode) and ref_part_implicit of it is a rank < np), '
+    'partCell_route_in_bounds (so dest never indexes elements_to_send[] / start_to_send[] out of range: the model\'s '
+    '`undefined` outcome of the routing is unreachable), routeChunk_eq_coded (the counting sort as coded equals the '
+    'routing the driver executes, on every input).  Tie: streams partmeshb_c20 (np 1,2,3: index 0, -1, nnode+1, nnode+2, '
+    '2^31-1, 2^32+1 in first / later position of tet / tri / edge records, counts, truncation, dimension / version / '
+    'next-position substitutions, bit flips; C status and, when accepted, the per-rank dump == model) and partmeshb_read '
+    '(np 1..5, valid files).  The two *_counterexample theorems of that file are Lean witnesses of findings/partmeshb-'
+    'count-2pow32-hang and findings/partmeshb-count-int-overflow (declared counts are trusted to size the read buffers).')
 ASSUMPTIONS = [
     'the binary libMeshb readers (.meshb, .solb scalar and metric) and the binary UGRID readers (serial, parallel at one '
     'rank) are modelled; ascii ugrid, r8.ugrid, mapbc, text formats are not; file-name handling of *_by_extension is '
@@ -64,7 +77,16 @@ ASSUMPTIONS = [
     'signed-overflow points of the C (ref_adj_add chunk, nodes[i]--, ldim*chunk) are modelled as `ub`; mutants '
     'reaching them are routed to the hazard streams',
     'metric payload doubles are not mutated (ref_node_metric_set status is the matrix kernel\'s)',
-    'serial readers only (no np=2 placement reader)',
+    'serial readers: Props/C20.lean; the parallel meshb reader: Props/C20PartMeshb.lean (the parallel solb / ugrid '
+    'readers are not modelled)',
+    'parallel meshb reader: when rank 0 returns an error from a rank-0-only section the other ranks are blocked in a '
+    'receive; the harness then prints the status and calls MPI_Abort (what a refmpi main does by returning without '
+    'MPI_Finalize) - "rejected cleanly" means: non-zero status on rank 0, no sanitizer report, no timeout',
+    'parallel meshb reader: declared cell / geometry / byte counts above 1.2e6 are kept out of the generated mutants '
+    '(they size buffers: int overflow of size_per*chunk, endless loop for a count of 2^32 - see findings/partmeshb-*; '
+    'the model returns `ub` / `hang` on them); ref_grid_inward_boundary_orientation, which runs after the reader '
+    'inside ref_part_meshb, is outside the model (the harness dumps the state just before it, by interposing that one '
+    'call in the white-box include of ref_part.c)',
 ]
 TRUSTED = ['harness/h_codec.c child isolation (fork, alarm, wait4 peak RSS)', 'checks/meshio_ref.py mutant factory']
 
